@@ -1,4 +1,5 @@
 import LyModel.Valid.Model
+import LyModel.Valid.XpWhen
 import LyModel.XPath.Eval
 import LyModel.XPath.Parse
 import LyModel.XPath.FloatNum
@@ -23,6 +24,9 @@ structure XCons where
   /-- leafref paths with `require-instance true` -/
   leafrefs : List (Nat × Bytes) := []
   whens : List (Nat × Bytes) := []
+  /-- the `XPath.Quirks` switches in force (extension DSL line `xpmask <n>`): the deviations of libyang's XPath engine that are
+  still in the source under test (bit `i` = finding `QBITS[i]` of tools/checks/c08.py not yet repaired); default: all -/
+  mask : Nat := 8191
   deriving Repr, Inhabited
 
 def XCons.add (c : XCons) (line : String) : Option XCons :=
@@ -30,9 +34,10 @@ def XCons.add (c : XCons) (line : String) : Option XCons :=
   | ["must", s, h] => do pure { c with musts := c.musts ++ [(← s.toNat?, ← Hex.dec h)] }
   | ["leafref", s, h] => do pure { c with leafrefs := c.leafrefs ++ [(← s.toNat?, ← Hex.dec h)] }
   | ["when", s, h] => do pure { c with whens := c.whens ++ [(← s.toNat?, ← Hex.dec h)] }
+  | ["xpmask", n] => do pure { c with mask := ← n.toNat? }
   | _ => some c
 
-/-- the lines `must <sid> <hex>` / `leafref <sid> <hex>` / `when <sid> <hex>` of the extension DSL; other lines are ignored -/
+/-- the lines `must <sid> <hex>` / `leafref <sid> <hex>` / `when <sid> <hex>` / `xpmask <n>` of the extension DSL; other lines are ignored -/
 def parseXCons (b : Bytes) : Option XCons :=
   if b.isEmpty then some {} else ((asciiString b).splitOn "\n").foldlM XCons.add {}
 
@@ -100,31 +105,32 @@ decreasing_by
 
 /-! ## evaluation (numbers are IEEE doubles, the semantics switches are those of the libyang at hand) -/
 
-/-- the `Quirks` in force: all recorded deviations of libyang's XPath (the default mask of the C08 driver) -/
+/-- all recorded deviations of libyang's XPath (the default mask of the C08 driver and of `XCons`) -/
 def xpMask : Nat := 8191
 
-def xpEnv (d : XPath.Doc) (ctx : Nat) : XPath.Env := { doc := d, q := XPath.Quirks.ofMask xpMask, cur := 2 * ctx }
+/-- `q` = the mask of the `XPath.Quirks` in force (`XCons.mask`) -/
+def xpEnv (q : Nat) (d : XPath.Doc) (ctx : Nat) : XPath.Env := { doc := d, q := XPath.Quirks.ofMask q, cur := 2 * ctx }
 
 /-- value of the expression text `e` with element `ctx` as context node and `current()`, position 1 of 1 -/
-def xpEvalD (d : XPath.Doc) (ctx : Nat) (e : Bytes) : Except Unit (XPath.Value Float) :=
+def xpEvalD (q : Nat) (d : XPath.Doc) (ctx : Nat) (e : Bytes) : Except Unit (XPath.Value Float) :=
   match XPath.Parse.parse e with
   | none => .error ()
   | some ex =>
-    match XPath.eval (N := Float) (xpEnv d ctx) ex { node := 2 * ctx, pos := 1, size := 1 } with
+    match XPath.eval (N := Float) (xpEnv q d ctx) ex { node := 2 * ctx, pos := 1, size := 1 } with
     | .ok v => .ok v
     | .error _ => .error ()
 
-def xpBoolD (d : XPath.Doc) (ctx : Nat) (e : Bytes) : Except Unit Bool := (xpEvalD d ctx e).map XPath.Value.toBool
+def xpBoolD (q : Nat) (d : XPath.Doc) (ctx : Nat) (e : Bytes) : Except Unit Bool := (xpEvalD q d ctx e).map XPath.Value.toBool
 
-def xpNodesD (d : XPath.Doc) (ctx : Nat) (e : Bytes) : Except Unit (List XPath.Ref) :=
-  match xpEvalD d ctx e with
+def xpNodesD (q : Nat) (d : XPath.Doc) (ctx : Nat) (e : Bytes) : Except Unit (List XPath.Ref) :=
+  match xpEvalD q d ctx e with
   | .ok (.ns l) => .ok l
   | _ => .error ()
 
 /-- boolean value of `e` on the forest `T` with element `ctx` as context; parse failure or evaluation error = `.error ()` -/
-def xpBool (S : Schema) (T : List DNode) (ctx : Nat) (e : Bytes) : Except Unit Bool := xpBoolD (docOf S T) ctx e
+def xpBool (q : Nat) (S : Schema) (T : List DNode) (ctx : Nat) (e : Bytes) : Except Unit Bool := xpBoolD q (docOf S T) ctx e
 /-- node-set value of `e` (anything else is an error) -/
-def xpNodes (S : Schema) (T : List DNode) (ctx : Nat) (e : Bytes) : Except Unit (List XPath.Ref) := xpNodesD (docOf S T) ctx e
+def xpNodes (q : Nat) (S : Schema) (T : List DNode) (ctx : Nat) (e : Bytes) : Except Unit (List XPath.Ref) := xpNodesD q (docOf S T) ctx e
 
 /-! ## `lyd_validate_final_r` with `lyd_validate_must` -/
 
@@ -139,13 +145,13 @@ def xdocsOf (S : Schema) (T : List DNode) : XDocs := { all := docOf S T, cfg := 
 
 /-- `lyd_validate_must`: the musts of the node in order; a false one logs `NoMust` (only a warning under
 `LYD_VALIDATE_OPERATIONAL`) and the next is evaluated; one that cannot be evaluated ends the node's checks with an error -/
-def mustOut (o : VOpts) (d : XPath.Doc) (num : Nat) (path : Bytes) : List Bytes → Out
+def mustOut (o : VOpts) (q : Nat) (d : XPath.Doc) (num : Nat) (path : Bytes) : List Bytes → Out
   | [] => {}
   | e :: es =>
-    match xpBoolD d num e with
+    match xpBoolD q d num e with
     | .error _ => Out.err .xpErr path
-    | .ok true => mustOut o d num path es
-    | .ok false => (if o.operational then {} else Out.err .noMust path) ++ mustOut o d num path es
+    | .ok true => mustOut o q d num path es
+    | .ok false => (if o.operational then {} else Out.err .noMust path) ++ mustOut o q d num path es
 
 /-- restrictions of the nodes themselves: no state data under `LYD_VALIDATE_NO_STATE` (then the musts are skipped: `goto next_iter`),
 else the node's musts.  `na` / `nc` = element number of the node in the whole / in the configuration-only document. -/
@@ -153,8 +159,8 @@ def nodeChecksX (S : Schema) (C : XCons) (o : VOpts) (cx : Cx) (D : XDocs) : (na
   | _, _, _, [] => {}
   | na, nc, before, n :: ns =>
     (if o.noState && !S.config n.sid then Out.err .unexpState (cx.pathOf S before n)
-     else if S.config n.sid then mustOut o D.cfg nc (cx.pathOf S before n) (C.mustsOf n.sid)
-     else mustOut o D.all na (cx.pathOf S before n) (C.mustsOf n.sid))
+     else if S.config n.sid then mustOut o C.mask D.cfg nc (cx.pathOf S before n) (C.mustsOf n.sid)
+     else mustOut o C.mask D.all na (cx.pathOf S before n) (C.mustsOf n.sid))
       ++ nodeChecksX S C o cx D (na + countN n) (nc + countCfgN S n) (before ++ [n]) ns
 
 def levelChecksX (X : SchemaX) (C : XCons) (o : VOpts) (cx : Cx) (D : XDocs) (na nc : Nat) (sibs : List DNode) : Out :=
@@ -187,8 +193,8 @@ def finalRX (X : SchemaX) (C : XCons) (o : VOpts) (cx : Cx) (T : List DNode) : L
 /-! ## leafref `require-instance` (`lyd_validate_unres`, node types) -/
 
 /-- `lyplg_type_validate_leafref`: some node the path selects from the node carries the node's value -/
-def lrefOk (d : XPath.Doc) (num : Nat) (val : Bytes) (path : Bytes) : Bool :=
-  match xpNodesD d num path with
+def lrefOk (q : Nat) (d : XPath.Doc) (num : Nat) (val : Bytes) (path : Bytes) : Bool :=
+  match xpNodesD q d num path with
   | .error _ => false
   | .ok refs => refs.any fun r => match d.elem? r with | some e => e.term && e.value == val | none => false
 
@@ -198,7 +204,7 @@ def lrefN (S : Schema) (C : XCons) (cx : Cx) (d : XPath.Doc) (num : Nat) (before
   | .inner s f m ks => lrefL S C (cx.descend S before (.inner s f m ks)) d (num + 1) [] ks
   | .term s f m v =>
     match C.lrefOf s with
-    | some p => if lrefOk d num v p then [] else [{ kind := .noReqInst, path := cx.pathOf S before (.term s f m v) }]
+    | some p => if lrefOk C.mask d num v p then [] else [{ kind := .noReqInst, path := cx.pathOf S before (.term s f m v) }]
     | none => []
 def lrefL (S : Schema) (C : XCons) (cx : Cx) (d : XPath.Doc) (num : Nat) (before : List DNode) : List DNode → List VErr
   | [] => []
@@ -211,8 +217,14 @@ def lrefPhase (X : SchemaX) (C : XCons) (cx : Cx) (T : List DNode) : Out :=
 
 /-! ## `lyd_validate_module` -/
 
-/-- hook for `when` (`lyd_validate_unres_when`): identity for now -/
-def whenPhase (_X : SchemaX) (_C : XCons) (_o : VOpts) (T : List DNode) : List DNode × Out := (T, {})
+/-- `when` (`lyd_validate_unres_when`, LyModel/Valid/XpWhen.lean): the implicit nodes of schema nodes with a when are flagged
+`whenTrue` (`markImpl`: `implNode` does not know the whens), then the rounds over the nodes with a when -/
+def whenPhase (X : SchemaX) (C : XCons) (o : VOpts) (T : List DNode) : List DNode × Out :=
+  whenPhaseM (xpBool C.mask X.base) X C.whens o T
+
+theorem whenPhase_nil (X : SchemaX) (C : XCons) (o : VOpts) (hw : C.whens = []) (T : List DNode) : whenPhase X C o T = (T, {}) := by
+  unfold whenPhase
+  rw [hw, whenPhaseM_nil]
 
 /-- `lyd_validate_module` / `lyd_validate_all` with `must` and leafref `require-instance` -/
 def validateX (X : SchemaX) (C : XCons) (o : VOpts) (t : List DNode) : VResult :=
@@ -299,14 +311,14 @@ theorem lrefPhase_nil (X : SchemaX) (C : XCons) (hl : C.leafrefs = []) (cx : Cx)
   rw [lrefL_nil X.base C hl]
   rfl
 
-/-- **without `must` and leafref statements `validateX` is `validate`** -/
-theorem validateX_nil (X : SchemaX) (C : XCons) (hm : C.musts = []) (hl : C.leafrefs = []) (o : VOpts) (t : List DNode) :
-    validateX X C o t = validate X o t := by
+/-- **without `must`, leafref and `when` statements `validateX` is `validate`** -/
+theorem validateX_nil (X : SchemaX) (C : XCons) (hm : C.musts = []) (hl : C.leafrefs = []) (hw : C.whens = []) (o : VOpts)
+    (t : List DNode) : validateX X C o t = validate X o t := by
   unfold validateX validate
   split
   · rfl
   · dsimp only
-    unfold whenPhase
+    rw [whenPhase_nil X C o hw]
     dsimp only
     rw [lrefPhase_nil X C hl, finalRX_nil X C hm]
     simp only [Out.append_empty]
